@@ -210,7 +210,7 @@ pub fn run(ctx: &Ctx) -> Report {
     );
     rep.assume("domain exclusion O6: the exclude flag is only generated as true together with a non-empty code set");
     rep.assume("sampling restricted to the deterministic points (rate 0 / >=100, override true/false) because the library draws from rand::random");
-    rep.add(run_part(ctx, "fold", ctx.cases(100_000, 5_000_000), || case_strategy(7), check, &[]));
+    rep.add(run_part(ctx, "fold", ctx.cases(600_000, 20_000_000), || case_strategy(7), check, &[]));
     rep
 }
 
